@@ -26,6 +26,8 @@ PATTERNS = [
     ("exec_vec_tuple", [("exec", "arg", "Vec<({P}, u32)>")]),
     ("query_ret_opt_tuple", [("query", "ret", "Option<({P}, u32)>")]),
     ("sudo_opt_array", [("sudo", "arg", "Option<[{P}; 2]>")]),
+    # only in the error half of a query's result: not part of the message, so not a parameter of it
+    ("query_err_only", [("query", "err", "{P}")]),
 ]
 
 PNAMES = ["TA", "TB", "TD"]   # single letters are C19's subject (some collide with helper parameters)
@@ -55,10 +57,12 @@ def build_contract(params, pats, wheres, interface=False):
         for (kind, slot, ty) in uses:
             t = ty.replace("{P}", ("Self::" + p) if interface else p)
             cnt += 1
-            if p not in used[kind]:
+            if p not in used[kind] and slot != "err":
                 used[kind].append(p)
             if slot == "arg":
                 methods[kind].append(("arg", "x%d" % cnt, t))
+            elif slot == "err":
+                methods[kind].append(("err", None, t))
             elif slot == "ret":
                 methods[kind].append(("ret", None, t))
             else:
@@ -77,6 +81,8 @@ def build_contract(params, pats, wheres, interface=False):
                 ms.append(Method("query", "q_ret%d" % j, (), qret=t, body="{ todo!() }"))
             for j, t in enumerate(resps):
                 ms.append(Method("query", "q_resp%d" % j, (), msg_params=", resp=%s" % t, ret="AliasedResult", body="{ todo!() }"))
+            for j, t in enumerate(t for (s_, n, t) in items if s_ == "err"):
+                ms.append(Method("query", "q_err%d" % j, (), ret="Result<u32, ErrOf<%s>>" % t, qret="u32", body="{ todo!() }"))
         elif kind in ("instantiate",):
             ms.append(Method(kind, "inst", args))
         elif kind == "migrate":
@@ -112,6 +118,19 @@ def programs(tier):
                 pid = "g%d:%s:%s" % (n, "+".join(p[0] for p in pats), wname)
                 obj, used = build_contract(params, pats, wheres)
                 yield (pid, "contract", obj, params, used, wheres)
+        if n == 2:
+            # one parameter used, then the other, then the first again (within one handler, across handlers, argument then response)
+            TA, TB = params
+            for j, (ex, qa, qr) in enumerate([((TA, TB, TA), (TB,), None), ((TA,), (TB, TA, "Vec<%s>" % TB), None), ((TB,), (TA, TB), TA), ((TA, "Option<%s>" % TB, "Vec<%s>" % TA, TB), (), TB)]):
+                ms = [Method("instantiate", "inst", ()), Method("exec", "e_h", tuple(Arg("x%d" % k, t) for k, t in enumerate(ex))), Method("exec", "e_two", (Arg("y", ex[0]),)),
+                      Method("query", "q_args", tuple(Arg("x%d" % k, t) for k, t in enumerate(qa)))]
+                if qr:
+                    ms.append(Method("query", "q_ret0", (), qret=qr, body="{ todo!() }"))
+                usedk = {k: [] for k in KINDS5}
+                usedk["exec"] = [q for q in params if any(re.search(r"\b%s\b" % q, t) for t in ex)]
+                usedk["query"] = [q for q in params if any(re.search(r"\b%s\b" % q, t) for t in list(qa) + ([qr] if qr else []))]
+                obj = Contract(methods=tuple(ms), generics=tuple((q, "") for q in params), new="pub const fn new() -> Self { Self { _p: std::marker::PhantomData } }")
+                yield ("g2:interleaved%d" % j, "contract", obj, params, usedk, [])
         if n <= 2 or tier == "thorough":
             for pats in itertools.product(PATTERNS, repeat=n):
                 if any(k in ("instantiate", "migrate") for p in pats for (k, _, _) in p[1]):
@@ -212,7 +231,7 @@ def e2_programs(tier):
     ]
     if tier == "thorough":
         k = 7
-        for pats in itertools.product(PATTERNS[:10] + PATTERNS[12:], repeat=2):
+        for pats in itertools.product(PATTERNS[:10] + PATTERNS[12:15], repeat=2):
             combos.append(("pg%d" % k, ["TA", "TB"], list(pats), ["TA: Clone"], {"TA": "u32", "TB": "String"}))
             k += 1
     BOUNDS = "sylvia::serde::Serialize + sylvia::serde::de::DeserializeOwned + std::fmt::Debug + Clone + PartialEq + sylvia::schemars::JsonSchema + 'static"
@@ -237,7 +256,7 @@ def e2_programs(tier):
     for j, perm in enumerate([("TB", "TA", "TD"), ("TD", "TB", "TA"), ("TB", "TD", "TA")]):
         a, b, d = perm
         ms = [Method("instantiate", "inst", (Arg("x1", a), Arg("x2", "Vec<%s>" % b))),
-              Method("exec", "e_h", (Arg("x1", a), Arg("x2", b), Arg("x3", "Option<%s>" % d))), Method("exec", "e_plain", (Arg("n", "u32"),)),
+              Method("exec", "e_h", (Arg("x1", a), Arg("x2", b), Arg("x3", "Option<%s>" % d), Arg("x4", "Vec<%s>" % a))), Method("exec", "e_plain", (Arg("n", "u32"),)),
               Method("query", "q_args", (Arg("x1", "Vec<%s>" % d), Arg("x2", a))), Method("query", "q_ret0", (), qret="(%s, u32)" % b, body="{ todo!() }"),
               Method("sudo", "s_h", (Arg("x1", "Vec<(%s, u32)>" % d), Arg("x2", "[%s; 2]" % a))),
               Method("migrate", "mig", (Arg("x1", d), Arg("x2", a)))]
